@@ -101,6 +101,23 @@ func restoreNames() {
 			if len(rename) == 0 {
 				continue
 			}
+			// the same names in another order: declarations were moved, nothing was renamed
+			have := map[string]int{}
+			for _, o := range objs {
+				have[o.Name]++
+			}
+			for _, w := range want {
+				have[w]--
+			}
+			permuted := true
+			for _, n := range have {
+				if n != 0 {
+					permuted = false
+				}
+			}
+			if permuted {
+				continue
+			}
 			// capture check: a restored name must not be used in this function for anything that is
 			// not itself one of the function's own variables (a package, a global, a builtin)
 			foreign := map[string]bool{}
